@@ -416,4 +416,114 @@ theorem fast_multiply_eq (F2 : FieldOps β) (F3 : FieldOps γ) (mul : α → β 
   · have h' : degree F a + degree F2 b < 0 := by omega
     simp [h, h']
 
+/-! ### long division -/
+open TF.Model.PolyD in
+/-- inner loop of `naive_divide` (`remainder[remainder_degree - i] -= q * divisor_coeff` over `enumerate()`), on the remainder
+    stored lowest degree first, = the hand model's `subScaled` on the reversed list (value and index panic) -/
+theorem divide_for2_eq (qc : α) (tl : List α) : ∀ (pre suf : List α),
+    TF.Gen.Poly.naive_divide_for2 F qc ((pre ++ suf).length - 1) (enumFrom pre.length tl) (pre ++ suf).reverse =
+      (subScaled F qc tl suf).map (fun s => (pre ++ s).reverse) := by
+  induction tl with
+  | nil => intro pre suf; simp [enumFrom, TF.Gen.Poly.naive_divide_for2, subScaled]
+  | cons t tl ih =>
+    intro pre suf
+    cases suf with
+    | nil =>
+      simp only [enumFrom, TF.Gen.Poly.naive_divide_for2, subScaled, List.append_nil, Option.map_none, usub?]
+      by_cases h0 : pre.length ≤ pre.length - 1
+      · have hp : pre = [] := by
+          cases pre with
+          | nil => rfl
+          | cons x xs => simp at h0; omega
+        subst hp
+        simp
+      · simp [h0]
+    | cons r suf =>
+      have hidx : (pre ++ r :: suf).length - 1 - pre.length = suf.length := by simp
+      have hle : pre.length ≤ (pre ++ r :: suf).length - 1 := by simp
+      have hget : (pre ++ r :: suf).reverse[suf.length]? = some r := by
+        simp [List.reverse_append, List.getElem?_append_left]
+      have hset : (pre ++ r :: suf).reverse.set suf.length (F.sub r (F.mul qc t)) =
+          ((pre ++ [F.sub r (F.mul qc t)]) ++ suf).reverse := by
+        simp [List.reverse_append, List.set_append_left]
+      have hlen : (pre ++ r :: suf).length = ((pre ++ [F.sub r (F.mul qc t)]) ++ suf).length := by simp
+      have hpl : pre.length + 1 = (pre ++ [F.sub r (F.mul qc t)]).length := by simp
+      simp only [enumFrom, TF.Gen.Poly.naive_divide_for2, usub?, hle, if_true, Option.bind_some, hidx, hget, hset, subScaled]
+      rw [hlen, hpl, ih]
+      cases subScaled F qc tl suf <;> simp
+
+open TF.Model.PolyD in
+/-- outer loop of `naive_divide` (`pop().unwrap()`, quotient coefficient, `continue` on zero, inner loop) = the hand model's
+    `divLoop`; the remainder is stored lowest degree first in the regenerated code, highest first in the model -/
+theorem divide_for_eq (lcInv lc : α) (tl : List α) : ∀ (n s : Nat) (rr q : List α),
+    TF.Gen.Poly.naive_divide_for F lcInv (lc :: tl) (List.range' s n) rr.reverse q.reverse =
+      (divLoop F lcInv tl n rr q).map (fun qr => (qr.2.reverse, qr.1.reverse)) := by
+  intro n
+  induction n with
+  | zero => intro s rr q; simp [TF.Gen.Poly.naive_divide_for, divLoop]
+  | succ n ih =>
+    intro s rr q
+    rw [List.range'_succ]
+    cases rr with
+    | nil => simp [TF.Gen.Poly.naive_divide_for, divLoop, pop?]
+    | cons c rest =>
+      have hpop : pop? (c :: rest).reverse = some (c, rest.reverse) := by simp [pop?]
+      have hq : q.reverse ++ [F.mul c lcInv] = (F.mul c lcInv :: q).reverse := by simp
+      simp only [TF.Gen.Poly.naive_divide_for, hpop, Option.bind_some, divLoop, hq]
+      by_cases hz : F.isZero (F.mul c lcInv) = true
+      · simp only [hz, if_true]
+        exact ih (s + 1) rest _
+      · have h2 := divide_for2_eq F (F.mul c lcInv) tl [] rest
+        simp only [List.nil_append, List.length_nil] at h2
+        simp only [hz, List.drop_succ_cons, List.drop_zero, enumerate, List.length_reverse, h2]
+        cases subScaled F (F.mul c lcInv) tl rest with
+        | none => simp
+        | some rest' => simpa using ih (s + 1) rest' (F.mul c lcInv :: q)
+
+theorem dropWhile_head_false (f : α → Bool) (l : List α) (x : α) (xs : List α) (h : l.dropWhile f = x :: xs) :
+    f x = false := by
+  induction l with
+  | nil => simp at h
+  | cons y l ih =>
+    rw [List.dropWhile_cons] at h
+    by_cases hy : f y = true
+    · simp only [hy, if_true] at h; exact ih h
+    · simp only [hy] at h
+      simp only [Bool.false_eq_true, if_false, List.cons.injEq] at h
+      rw [← h.1]; simpa using hy
+
+open TF.Model.PolyD in
+/-- **regenerated `naive_divide` = hand model**, every record of field operations, every dividend and divisor storage:
+    same quotient and remainder storage, panic exactly for the zero divisor (no index, `pop().unwrap()`, `usize` subtraction
+    or `inverse()` panic otherwise) -/
+theorem naive_divide_eq (a d : List α) : TF.Gen.Poly.naive_divide F a d = naiveDivide F a d := by
+  have hda : degree F a = ((revNorm F a).length : Int) - 1 := by simp [degree, normalize, revNorm]
+  have hdd : degree F d = ((revNorm F d).length : Int) - 1 := by simp [degree, normalize, revNorm]
+  have hna : normalize F a = (revNorm F a).reverse := rfl
+  have hlc : leadingCoefficient F d = (revNorm F d).head? := by
+    simp [leadingCoefficient, normalize, revNorm, List.getLast?_reverse]
+  have hrn : (d.reverse.dropWhile fun c => F.isZero c) = revNorm F d := rfl
+  unfold TF.Gen.Poly.naive_divide naiveDivide
+  simp only [leading_coefficient_eq, degree_eq, normalize_eq, Option.bind_some, hlc, hda, hdd, hna, hrn,
+    TF.Gen.Poly.zero, TF.Gen.Poly.new, TF.Gen.Poly.into_owned]
+  cases hrd : revNorm F d with
+  | nil => simp
+  | cons lc tl =>
+    have hnz : F.isZero lc = false := dropWhile_head_false F.isZero d.reverse lc tl hrd
+    simp only [List.head?_cons, Option.bind_some, inverse?, hnz, Bool.false_eq_true, if_false, List.length_cons, toUsize?]
+    by_cases h : (revNorm F a).length < tl.length + 1
+    · have h' : ¬ (0 ≤ ((revNorm F a).length : Int) - 1 - (((tl.length + 1 : Nat) : Int) - 1)) := by omega
+      simp only [h, h', if_true, if_false]
+    · have h' : (0 ≤ ((revNorm F a).length : Int) - 1 - (((tl.length + 1 : Nat) : Int) - 1)) := by omega
+      have hq : (((revNorm F a).length : Int) - 1 - (((tl.length + 1 : Nat) : Int) - 1)).toNat + 1 - 0
+          = (revNorm F a).length - tl.length := by omega
+      have hge : decide (((revNorm F a).length : Int) - 1 ≥ 0) = true := by
+        rw [decide_eq_true_eq]; omega
+      have hfor := divide_for_eq F (F.inv lc) lc tl ((revNorm F a).length - tl.length) 0 (revNorm F a) []
+      simp only [List.reverse_nil] at hfor
+      simp only [h, h', if_true, if_false, hq, hge, assert?, Option.bind_some, hfor]
+      cases divLoop F (F.inv lc) tl ((revNorm F a).length - tl.length) (revNorm F a) [] with
+      | none => rfl
+      | some qr => simp
+
 end TF.GenBridge.Poly
